@@ -12,6 +12,7 @@ import (
 	"syscall"
 	"time"
 
+	"verifharness/sched"
 	"verifharness/world"
 )
 
@@ -75,6 +76,25 @@ func init() {
 // that dies is reported under deathKey with the last logged case.
 func (c *Ctx) RunPartInChild(name, deathKey string) {
 	exe, _ := os.Executable()
+	c.runPartInChildExe(exe, nil, name, deathKey)
+}
+
+// RunPartInRaceChild runs the part in the race-detector build of the harness (VERIF_RACE_BIN, built by
+// ./check); the first data race report ends the child, which is reported under deathKey with the report.
+// It returns false when no such binary is available.
+func (c *Ctx) RunPartInRaceChild(name, deathKey string) bool {
+	exe := os.Getenv("VERIF_RACE_BIN")
+	if exe == "" {
+		return false
+	}
+	if _, err := os.Stat(exe); err != nil {
+		return false
+	}
+	c.runPartInChildExe(exe, []string{"GORACE=halt_on_error=1 exitcode=66"}, name, deathKey)
+	return true
+}
+
+func (c *Ctx) runPartInChildExe(exe string, env []string, name, deathKey string) {
 	dir, err := os.MkdirTemp(world.WorkRoot(), "part-")
 	if err != nil {
 		c.Inconclusive("child part %s: %v", name, err)
@@ -83,6 +103,9 @@ func (c *Ctx) RunPartInChild(name, deathKey string) {
 	defer os.RemoveAll(dir)
 	prog := filepath.Join(dir, "progress")
 	cmd := exec.Command(exe, "worker", "part", name, c.ID, c.Tier, fmt.Sprint(c.Seed), prog)
+	if len(env) > 0 {
+		cmd.Env = append(os.Environ(), env...)
+	}
 	var outb, errb bytes.Buffer
 	cmd.Stdout, cmd.Stderr = &outb, &errb
 	done := make(chan error, 1)
@@ -150,4 +173,39 @@ func firstLine(s string) string {
 		return s[:i]
 	}
 	return s
+}
+
+// runOrHang runs f in a goroutine of its own and waits for it. If that goroutine is seen parked on a mutex
+// (wait state from the runtime's goroutine dump) with an unchanged stack on `confirm` consecutive samples
+// 50 ms apart, and nothing else in this process works on the same object, the call will never return: hung
+// is reported with the stack. The goroutine is abandoned. The verdict rests on the observed wait state;
+// a call that is merely slow keeps being waited for.
+func runOrHang(f func()) (hung bool, stack string) {
+	const confirm = 60 // 3 s of identical observations
+	done := make(chan struct{})
+	gidc := make(chan int64, 1)
+	go func() {
+		defer close(done)
+		gidc <- sched.Goid()
+		f()
+	}()
+	g := <-gidc
+	same, last := 0, ""
+	for {
+		select {
+		case <-done:
+			return false, ""
+		case <-time.After(50 * time.Millisecond):
+		}
+		st, sk := sched.GoroutineStates([]int64{g})
+		if sched.LockWait(st[g]) && (last == "" || sk[g] == last) {
+			same++
+			last = sk[g]
+		} else {
+			same, last = 0, ""
+		}
+		if same >= confirm {
+			return true, last
+		}
+	}
 }
